@@ -9,6 +9,7 @@ package c13
 import (
 	"encoding/json"
 	"fmt"
+	"strings"
 
 	"verif/internal/vrt"
 )
@@ -301,8 +302,9 @@ func run(c vrt.Case) vrt.Obs {
 	vrt.Params(c, &sc)
 	var o vrt.Obs
 	o.Evals = 1
-	e := &env{sc: sc, o: &o, rng: vrt.Rand(sc.Seed, "scenario")}
+	e := &env{sc: sc, o: &o, rng: vrt.Rand(sc.Seed, "scenario"), fatal: make(chan struct{})}
 	e.guard(e.run)
+	e.rootCause()
 	// goroutines abandoned inside a hanging library call may still touch the observation later:
 	// hand a deep copy to the framework
 	e.omu.Lock()
@@ -316,4 +318,31 @@ func run(c vrt.Case) vrt.Obs {
 		return vrt.Obs{Evals: 1, Inconclusive: []string{"observation not serialisable: " + err.Error()}}
 	}
 	return cp
+}
+
+// rootCause removes symptoms that are mere consequences of a recorded root cause in the same
+// scenario (a panic inside the library, or the library dropping the TNC link): API calls failing,
+// exchanges not happening and calls hanging afterwards say nothing new. Stream verdicts, frame
+// verdicts and panics are always kept.
+func (e *env) rootCause() {
+	e.omu.Lock()
+	defer e.omu.Unlock()
+	root := false
+	for _, v := range e.o.Violations {
+		if strings.HasPrefix(v.Key, "panic:") || v.Key == "tnc-link:closed-by-library" {
+			root = true
+		}
+	}
+	if !root {
+		return
+	}
+	kept := e.o.Violations[:0]
+	for _, v := range e.o.Violations {
+		if strings.HasPrefix(v.Key, "api:") || strings.HasPrefix(v.Key, "exchange:") || strings.HasPrefix(v.Key, "stuck:") || v.Key == "accept:spurious" {
+			e.o.Count("consequential_symptoms_not_reported", 1)
+			continue
+		}
+		kept = append(kept, v)
+	}
+	e.o.Violations = kept
 }
